@@ -163,6 +163,41 @@ def _targets(v):
         yield v
 
 
+def _names(fn):
+    """names of the segments in a neighbourhood answer ('!Exc' if the query raises)"""
+    try:
+        return sorted(str(x.name) if hasattr(x, "name") else str(x) for x in fn())
+    except BaseException as e:  # noqa
+        return ["!" + type(e).__name__]
+
+
+def _etype(o):
+    try:
+        t = [o.is_dovetail(), o.is_containment(), o.is_internal()]
+    except BaseException as e:  # noqa
+        return "!" + type(e).__name__
+    if t == [True, False, False]:
+        return "L"
+    if t == [False, True, False]:
+        return "C"
+    if t == [False, False, True]:
+        return "I"
+    return "!mixed"
+
+
+def _ends(o):
+    try:
+        fe, te = o.from_end, o.to_end
+        r = [[str(fe.name), str(fe.end_type)], [str(te.name), str(te.end_type)]]
+        # other_end must map each end onto the other
+        oe1, oe2 = o.other_end(fe), o.other_end(te)
+        r.append([str(oe1.name), str(oe1.end_type)])
+        r.append([str(oe2.name), str(oe2.end_type)])
+        return r
+    except BaseException as e:  # noqa
+        return [["!" + type(e).__name__, ""]]
+
+
 def safe_str(line):
     try:
         return str(line)
@@ -246,8 +281,17 @@ def observe(gfa, pool, universe=()):
                     ids.append(-1 if isinstance(tt, str) else index.get(id(tt), 0))
             if ids:
                 br.append([k, ids])
-        out.append({"p": pool.add(rec), "virt": virt, "own": own, "fwd": fwd,
-                    "br": br, "lf": lf})
+        ent = {"p": pool.add(rec), "virt": virt, "own": own, "fwd": fwd, "br": br, "lf": lf,
+               "nb": [], "et": "", "ends": []}
+        if o.record_type == "S":
+            ent["nb"] = [_names(lambda: o.neighbours_L), _names(lambda: o.neighbours_R),
+                         _names(lambda: o.containers), _names(lambda: o.contained),
+                         _names(lambda: o.neighbours)]
+        elif o.record_type in ("L", "C", "E") and not o.virtual:
+            ent["et"] = _etype(o)
+            if ent["et"] == "L":
+                ent["ends"] = _ends(o)
+        out.append(ent)
     obs = {"version": gfa._version if gfa._version is not None else "none",
            "qlen": len(gfa._line_queue),
            "hdr": sorted(hdr),
@@ -291,7 +335,7 @@ def digest(obs, pool):
         [rid(l["p"]), l["virt"], l["own"],
          sorted([k, pid(i)] for k, i in l["fwd"]),
          sorted([k, sorted(pid(i) for i in ids)] for k, ids in l["br"]),
-         l["lf"]] for l in ls)
+         l["lf"], l["nb"], l["et"], l["ends"]] for l in ls)
     look = [[e[0]] + [pid(x) for x in e[1:]] for e in obs["look"]]
     blob = json.dumps([obs["version"], obs["qlen"], obs["hdr"], canon, look, obs["names"],
                        obs["cc"], obs["nd"], obs["nc"], obs["ni"], obs["nde"]], sort_keys=True)
